@@ -31,7 +31,7 @@ Definition PQ_HEADER_BYTES : N := 64.
 Definition SIZE_MAX : N := W - 1.
 (** cc_pqueue_new_conf: [if (conf->exp_factor <= 1) ex = DEFAULT_EXPANSION_FACTOR]. *)
 Definition pq_factor (num den : N) : N * N :=
-  if num <=? den then (DEFAULT_EXPANSION_FACTOR_num, DEFAULT_EXPANSION_FACTOR_den) else (num, den).
+  if num <=? den then (PQUEUE_DEFAULT_EXPANSION_FACTOR_num, PQUEUE_DEFAULT_EXPANSION_FACTOR_den) else (num, den).
 (** [!conf->capacity || ex >= CC_MAX_ELEMENTS / conf->capacity] (integer division, then compared
     with the float: n/d >= q  <->  q*d <= n). *)
 Definition pq_bad_capacity (capacity n d : N) : bool :=
